@@ -4,7 +4,7 @@ SPEC = {
     "props_module": "C21",
     "model_vo": "theories/C21/Model.vo",
     "bin": "c21",
-    "n": {"quick": 500, "thorough": 6000},
+    "n": {"quick": 800, "thorough": 6000},
     "rule": "engine c21: (A) direct calls of the real highlight_fragments / make_snippet on random Unicode texts (ASCII, "
             "Latin-1, CJK, emoji and ZWJ sequences, multi-byte padding before the match), terms taken from the text, "
             "phrases, fragment sizes concentrated around 2*|term| (window barely containing the match), counts 0..5, ten "
